@@ -286,7 +286,7 @@ func buildStrategy(s SubSpec) strategy.Strategy {
 	}
 	inst := e.Make(c)
 	if s.Scale > 1 && len(s.Cfg) == 0 {
-		scalePeriods(reflect.ValueOf(inst), s.Scale, 0)
+		scaleConfig(reflect.ValueOf(inst), s.Scale)
 	}
 	return inst
 }
